@@ -18,7 +18,7 @@ def handleLazy : Handler
     let d ← parseData schema data
     let q ← parseIR ir
     let a ← parseArgs args
-    let env : Env := ⟨d, a⟩
+    let env : Env := Env.ofData d a
     let starts := d.start q.rootName q.rootParams
     match blockSizes env q starts with
     | .ok sizes =>
